@@ -1019,7 +1019,7 @@ Fixpoint pre_all (ls : list (list string)) (st : pstate) : bool :=
     report an error where [line_pre] fails, where a [sort bitvec 0] is declared, and where a
     bad/constraint line refers to a node that is not Boolean; apart from that it is the shipped
     reader ([Cur]).  A failing check leaves the state unchanged, like every other line error. *)
-Inductive code_variant : Type := Cur | Fix.
+Inductive code_variant : Type := Cur | Fix | Fix2.
 
 Definition prop_bool (st : pstate) (toks : list string) : bool :=
   let op := tokn toks 1 in
@@ -1030,11 +1030,26 @@ Definition prop_bool (st : pstate) (toks : list string) : bool :=
 Definition line_fix_pre (st : pstate) (toks : list string) : bool :=
   line_pre st toks && negb (zero_sort_line toks) && prop_bool st toks.
 
-Definition parse_line_v (v : code_variant) (dbg : bool) (st : pstate) (toks : list string) : pres pstate :=
+(** [Fix2] = [Fix] + patches/0009-fix-btor2-ext-operand-bitvector.diff: uext/sext take a bit-vector
+    operand whatever the amount (the shipped reader and [Fix] let an array through when the
+    amount is 0, the idiom of the writer's alias lines). *)
+Definition ext_bv (st : pstate) (toks : list string) : bool :=
+  let op := tokn toks 1 in
+  if seq op "uext" || seq op "sext" then
+    match opnd_ty st (tokn toks 3) with Some t => is_bv_ty t | None => true end
+  else true.
+
+Definition variant_pre (v : code_variant) (st : pstate) (toks : list string) : bool :=
   match v with
-  | Cur => parse_line dbg st toks
-  | Fix => if line_fix_pre st toks then parse_line dbg st toks else PErr
+  | Cur => true
+  | Fix => line_fix_pre st toks
+  | Fix2 => line_fix_pre st toks && ext_bv st toks
   end.
+
+Definition is_fix (v : code_variant) : bool := match v with Cur => false | _ => true end.
+
+Definition parse_line_v (v : code_variant) (dbg : bool) (st : pstate) (toks : list string) : pres pstate :=
+  if variant_pre v st toks then parse_line dbg st toks else PErr.
 
 Fixpoint parse_fold_v (v : code_variant) (dbg : bool) (ls : list (list string)) (st : pstate) (err : bool)
   : pres (pstate * bool) :=
